@@ -238,6 +238,9 @@ func (ts *TestScript) cmdExec(neg bool, args []string) {
 
 	var err error
 	if len(args) > 0 && backgroundSpecifier.MatchString(args[len(args)-1]) {
+		if len(args) < 2 {
+			ts.Fatalf("usage: exec program [args...] [&]")
+		}
 		bgName := strings.TrimSuffix(strings.TrimPrefix(args[len(args)-1], "&"), "&")
 		if ts.findBackground(bgName) != nil {
 			ts.Fatalf("duplicate background process name %q", bgName)
